@@ -887,8 +887,227 @@ def fals_backend(ctx, case):
 def gen_backend_case(rng, tight):
     c = {"kind": "fals_backend", "n": rng.randint(5, 6), "steps": rng.choice([2, 3]), "dt": rng.choice([10.0, 20.0]),
          "seed": rng.getrandbits(40), "local": rng.random() < 0.5, "drive": rng.choice([1.0, 2.0])}
+    c["steps"] = rng.choice([2, 3, 4])  # >= 2 evaluation times with different drives on the SAME Hamiltonian object
     if tight:
         c["trunc"] = {"max_bond_dim": rng.choice([2, 2, 3, 4]), "precision": rng.choice([1e-5, 1e-2, 1e-1])}
+    return c
+
+# ------------------------------------------------------------------------------------------------
+# precision stream: generic (non-dyadic) complex128 data through every observable implementation of both backends,
+# against an independent numpy complex128 reference at 1e-11 relative to the natural scale, plus a dtype oracle.  A detour
+# through float32 / complex64 anywhere on the way costs >= 1e-8 relative and is invisible to the exact Gaussian-integer
+# correspondences (small integers are exact in float32 too) and to the 1e-9 falsifier only marginally visible.
+PREC = 1e-11
+
+
+def _np_op(ops, n):
+    """independent dense matrix of an operator representation over (g, r): basis index 0 = g, 1 = r"""
+    import numpy as np
+    E = {"gg": (0, 0), "gr": (0, 1), "rg": (1, 0), "rr": (1, 1)}
+    acc = np.zeros((2 ** n, 2 ** n), dtype=complex)
+    for coeff, tensor in ops:
+        gates = [np.eye(2, dtype=complex) for _ in range(n)]
+        for q, targets in tensor:
+            m = np.zeros((2, 2), dtype=complex)
+            for k, v in q.items():
+                m[E[k]] += v
+            for t in targets:
+                gates[t] = m
+        full = np.ones((1, 1), dtype=complex)
+        for gt in gates:
+            full = np.kron(full, gt)
+        acc = acc + coeff * full
+    return acc
+
+
+def _rand_ops(g, n):
+    import torch
+    r = lambda: complex(torch.randn(1, generator=g, dtype=torch.float64).item(),  # noqa: E731
+                        torch.randn(1, generator=g, dtype=torch.float64).item())
+    ops = []
+    for q in range(n):
+        ops.append((r(), [({"gr": r(), "rg": r(), "rr": r().real}, [q])]))
+    for q in range(n - 1):
+        ops.append((r().real, [({"rr": 1.0, "gg": r()}, [q]), ({"gr": r(), "rg": 1.0}, [q + 1])]))
+    return ops
+
+
+def _schmidt_gap_ok(M, n, d):
+    """every operator-Schmidt value of M across every cut is either numerically zero or far above the library's
+    compression threshold 1e-5 (so that MPO @ MPO is lossless whatever the gauge)"""
+    import numpy as np
+    for q in range(1, n):
+        dl, dr = d ** q, d ** (n - q)
+        sv = np.linalg.svd(M.reshape(dl, dr, dl, dr).transpose(0, 2, 1, 3).reshape(dl * dl, dr * dr), compute_uv=False)
+        if any(1e-9 * sv[0] < x < 1e-3 for x in sv):
+            return False
+    return True
+
+
+def fals_precision(ctx, case):
+    import numpy as np
+    import torch
+    from pulser.backend import Fidelity, Expectation
+    from props import _dense_ref as ref
+
+    g = torch.Generator()
+    g.manual_seed(case["seed"])
+    rep, n = case["rep"], case["n"]
+    D = 2 ** n
+    kw = dict(config=None)
+
+    def bad(what, name):
+        ctx.violation(f"precision stream ({rep}, {n} atoms): {what}", {"case": case, "observable": name,
+                                                                        "finding_key": "observable-lost-precision"})
+
+    def cmp(name, got, want, scale):
+        t = got if isinstance(got, torch.Tensor) else torch.as_tensor(got)
+        if t.dtype not in (torch.float64, torch.complex128):
+            ctx.violation(f"precision stream ({rep}): {name} is returned as {t.dtype}",
+                          {"case": case, "observable": name, "finding_key": "observable-dtype"})
+        a = np.asarray(t.detach().cpu().numpy(), dtype=complex).reshape(-1)
+        b = np.asarray(want, dtype=complex).reshape(-1)
+        err = float(np.abs(a - b).max()) if a.shape == b.shape else float("inf")
+        if not err <= PREC * max(1.0, scale):
+            bad(f"{name} deviates by {err:.3g} from the complex128 reference (scale {scale:.3g}, allowed "
+                f"{PREC * max(1.0, scale):.3g})", name)
+        return err / max(1.0, scale)
+
+    worst = 0.0
+    if rep in ("sv", "dm"):
+        import emu_sv.custom_callback_implementations as cci
+        from emu_sv.state_vector import StateVector
+        from emu_sv.density_matrix_state import DensityMatrix
+        from emu_sv.dense_operator import DenseOperator
+        from emu_sv.hamiltonian import RydbergHamiltonian
+        from emu_sv.lindblad_operator import RydbergLindbladian
+        om = torch.rand(n, generator=g, dtype=torch.float64) * 6
+        de = (torch.rand(n, generator=g, dtype=torch.float64) - 0.5) * 10
+        ph = (torch.rand(n, generator=g, dtype=torch.float64) - 0.5) * 4 if case["phases"] else torch.zeros(n, dtype=torch.float64)
+        U = torch.rand(n, n, generator=g, dtype=torch.float64) * 3
+        U = torch.triu(U, 1) + torch.triu(U, 1).T
+        Hd = ref.dense_H(om.numpy(), de.numpy(), ph.numpy(), U.numpy())
+        hs = float(np.abs(Hd).sum(axis=1).max())
+        psi = torch.randn(D, generator=g, dtype=torch.complex128)
+        psi = psi / torch.linalg.vector_norm(psi)
+        oth = torch.randn(D, generator=g, dtype=torch.complex128)
+        oth = oth / torch.linalg.vector_norm(oth)
+        v, w = psi.numpy().copy(), oth.numpy().copy()
+        bit = lambda k, q: (k >> (n - 1 - q)) & 1  # noqa: E731
+        if rep == "sv":
+            st, other = StateVector(psi.clone(), gpu=False), StateVector(oth.clone(), gpu=False)
+            H = RydbergHamiltonian(om, de, ph, U, torch.device("cpu"))
+            hv = Hd @ v
+            e, m2 = float(np.vdot(v, hv).real), float(np.vdot(hv, hv).real)
+            res = [("occupation", cci.qubit_occupation_sv_impl(None, state=st, hamiltonian=H, **kw), ref.occupation(v, n), 1.0),
+                   ("correlation_matrix", cci.correlation_matrix_sv_impl(None, state=st, hamiltonian=H, **kw), ref.correlation(v, n), 1.0),
+                   ("energy", H.expect(st), e, hs),
+                   ("energy_second_moment", cci.energy_second_moment_sv_impl(None, state=st, hamiltonian=H, **kw), m2, hs * hs),
+                   ("energy_variance", cci.energy_variance_sv_impl(None, state=st, hamiltonian=H, **kw), m2 - e * e, hs * hs),
+                   ("fidelity", Fidelity(other, evaluation_times=[1.0]).apply(state=st, hamiltonian=H, **kw),
+                    abs(np.vdot(w, v)) ** 2, 1.0)]
+            ops = _rand_ops(g, n)
+            O = _np_op(ops, n)
+            op = DenseOperator.from_operator_repr(eigenstates=("r", "g"), n_qudits=n, operations=ops)
+            res.append(("expectation", Expectation(op, evaluation_times=[1.0]).apply(state=st, hamiltonian=H, **kw),
+                        np.vdot(v, O @ v), float(np.abs(O).sum(axis=1).max())))
+            if st.data.dtype != torch.complex128:
+                bad(f"state data became {st.data.dtype}", "state")
+        else:
+            p1 = 0.25 + 0.5 * torch.rand(1, generator=g, dtype=torch.float64).item()
+            R = p1 * np.outer(v, v.conj()) + (1 - p1) * np.outer(w, w.conj())
+            S = np.outer(w, w.conj())
+            st = DensityMatrix(torch.tensor(R, dtype=torch.complex128), gpu=False)
+            other = DensityMatrix(torch.tensor(S, dtype=torch.complex128), gpu=False)
+            L = RydbergLindbladian(om, de, ph, [], U, torch.device("cpu"))
+            p = np.real(np.diag(R))
+            occ = [sum(p[k] for k in range(D) if bit(k, i)) for i in range(n)]
+            cor = [[sum(p[k] for k in range(D) if bit(k, i) and bit(k, j)) for j in range(n)] for i in range(n)]
+            e, m2 = float(np.trace(Hd @ R).real), float(np.trace(Hd @ Hd @ R).real)
+            res = [("occupation", cci.qubit_occupation_sv_den_mat_impl(None, state=st, hamiltonian=L, **kw), occ, 1.0),
+                   ("correlation_matrix", cci.correlation_matrix_sv_den_mat_impl(None, state=st, hamiltonian=L, **kw), cor, 1.0),
+                   ("energy", L.expect(st), e, hs),
+                   ("energy_second_moment", cci.energy_second_moment_den_mat_impl(None, state=st, hamiltonian=L, **kw), m2, hs * hs),
+                   ("energy_variance", cci.energy_variance_sv_den_mat_impl(None, state=st, hamiltonian=L, **kw), m2 - e * e, hs * hs),
+                   ("fidelity", Fidelity(other, evaluation_times=[1.0]).apply(state=st, hamiltonian=L, **kw),
+                    np.trace(S.conj().T @ R), 1.0)]
+        for name, got, want, scale in res:
+            worst = max(worst, cmp(name, got, want, scale))
+        return {"worst_rel": worst}
+    # ---- MPS, truncation off (settings far from binding: the state is never truncated by an observable)
+    import emu_mps.custom_callback_implementations as mci
+    from emu_mps.mps import MPS
+    from emu_mps.mpo import MPO
+    d = case["d"]
+    for _ in range(20):
+        H = _make_mpo(g, n, d, case["phases"])
+        Hd = _dense_mpo(H.factors).numpy()
+        if _schmidt_gap_ok(Hd @ Hd, n, d):
+            break
+    else:
+        return {"skipped": "no well-separated Hamiltonian found"}
+    hs = float(np.abs(Hd).sum(axis=1).max())
+    bonds = case["bonds"]
+    fs = _rand_mps(g, bonds, d, 1.0)
+    gs = _rand_mps(g, bonds, d, 1.0)
+    psi = _dense_state(fs).numpy().copy()
+    w = _dense_state(gs).numpy().copy().reshape(-1)
+    occ_r, cor_r, e_r, m2_r, n2 = _mps_refs(psi, Hd, n, d)
+    settings = dict(precision=1e-14, max_bond_dim=4096)
+    st = MPS([t.clone() for t in fs], num_gpus_to_use=0, eigenstates=_eig(d), **settings)
+    other = MPS([t.clone() for t in gs], num_gpus_to_use=0, eigenstates=_eig(d), **settings)
+    if case["center"] is not None:
+        st.orthogonalize(case["center"])
+    res = [("occupation", mci.qubit_occupation_mps_impl(None, state=st, hamiltonian=H, **kw), occ_r, 1.0),
+           ("correlation_matrix", mci.correlation_matrix_mps_impl(None, state=st, hamiltonian=H, **kw), cor_r, 1.0),
+           ("energy", mci.energy_mps_impl(None, state=st, hamiltonian=H, **kw), e_r, hs),
+           ("energy_second_moment", mci.energy_second_moment_mps_impl(None, state=st, hamiltonian=H, **kw), m2_r, hs * hs),
+           ("energy_variance", mci.energy_variance_mps_impl(None, state=st, hamiltonian=H, **kw), m2_r - e_r * e_r, hs * hs),
+           ("fidelity", Fidelity(other, evaluation_times=[1.0]).apply(state=st, hamiltonian=H, **kw),
+            abs(np.vdot(w, psi.reshape(-1))) ** 2, 1.0)]
+    if d == 2:
+        ops = _rand_ops(g, n)
+        # MPS basis order is (g, r) = (0, 1) as in _np_op
+        O = _np_op(ops, n)
+        op = MPO.from_operator_repr(eigenstates=("r", "g"), n_qudits=n, operations=ops)
+        res.append(("expectation", Expectation(op, evaluation_times=[1.0]).apply(state=st, hamiltonian=H, **kw),
+                    np.vdot(psi.reshape(-1), O @ psi.reshape(-1)), float(np.abs(O).sum(axis=1).max())))
+    for name, got, want, scale in res:
+        worst = max(worst, cmp(name, got, want, scale))
+    if any(f.dtype != torch.complex128 for f in st.factors):
+        bad("an MPS factor is no longer complex128", "state")
+    # the same Hamiltonian OBJECT after its drives were rewritten in place (update_H), as the backend does between steps
+    from emu_mps.hamiltonian import update_H
+    c = lambda x: x.to(torch.complex128)  # noqa: E731
+    update_H(hamiltonian=H, omega=c(torch.rand(n, generator=g, dtype=torch.float64) * 6),
+             delta=c((torch.rand(n, generator=g, dtype=torch.float64) - 0.5) * 10),
+             phi=c((torch.rand(n, generator=g, dtype=torch.float64) - 0.5) * 4), noise=torch.zeros(d, d, dtype=torch.complex128))
+    Hd2 = _dense_mpo(H.factors).numpy()
+    hs2 = float(np.abs(Hd2).sum(axis=1).max())
+    _, _, e2, m22, _ = _mps_refs(psi, Hd2, n, d)
+    got_m2 = float(mci.energy_second_moment_mps_impl(None, state=st, hamiltonian=H, **kw))
+    got_var = float(mci.energy_variance_mps_impl(None, state=st, hamiltonian=H, **kw))
+    got_e = float(mci.energy_mps_impl(None, state=st, hamiltonian=H, **kw))
+    tol = _tol_m2(n, 1.0, hs2)
+    if abs(got_e - e2) > TOL * max(1.0, hs2) or abs(got_m2 - m22) > tol or abs(got_var - (m22 - e2 * e2)) > tol:
+        ctx.violation(f"after update_H on the same Hamiltonian object: energy {got_e} / second moment {got_m2} / variance "
+                      f"{got_var} vs definitions {e2} / {m22} / {m22 - e2 * e2} with the Hamiltonian of that time",
+                      {"case": case, "finding_key": "mps-moments-stale-hamiltonian"})
+    return {"worst_rel": worst}
+
+
+def gen_precision_case(rng, rep):
+    c = {"kind": "fals_precision", "rep": rep, "seed": rng.getrandbits(40), "phases": rng.random() < 0.7}
+    if rep == "sv":
+        c["n"] = rng.randint(2, 7)
+    elif rep == "dm":
+        c["n"] = rng.randint(2, 5)
+    else:
+        c["d"] = d = rng.choice([2, 2, 3])
+        c["n"] = n = rng.randint(2, 6) if d == 2 else rng.randint(2, 4)
+        chi = rng.randint(2, 5)
+        c["bonds"] = [1] + [min(chi, d ** min(i, n - i)) for i in range(1, n)] + [1]
+        c["center"] = rng.choice([None] + list(range(n)))
     return c
 
 
@@ -974,7 +1193,7 @@ def fill_sweep(rng):
 
 
 FALS = {"fals_sv": fals_sv, "fals_dm": fals_sv, "fals_mps": fals_mps, "fals_fill": fals_fill,
-        "fals_backend": fals_backend}
+        "fals_backend": fals_backend, "fals_precision": fals_precision}
 
 
 def corpus_cases():
@@ -1005,11 +1224,17 @@ def run(ctx):
     fcases += fill_sweep(rng)
     fcases += trunc_sweep(rng)
     fcases += [gen_backend_case(rng, tight=(i % 3 != 2)) for i in range(ctx.n(3, 15))]
+    for rep, nq, nt in (("sv", 10, 100), ("dm", 6, 60), ("mps", 10, 100)):
+        fcases += [gen_precision_case(rng, rep) for _ in range(ctx.n(nq, nt))]
     for kind, nq, nt in (("fals_sv", 40, 400), ("fals_dm", 20, 200), ("fals_mps", 30, 250), ("fals_fill", 30, 250)):
         fcases += [gen_fals_case(rng, kind) for _ in range(ctx.n(nq, nt))]
+    prec_worst = [0.0]
     for c in fcases:
         info = FALS[c["kind"]](ctx, c)
         size = c.get("N") or c.get("n") or len(c.get("mask", []))
+        if c["kind"] == "fals_precision":
+            h(f"precision/{c['rep']}")
+            prec_worst[0] = max(prec_worst[0], (info or {}).get("worst_rel", 0.0))
         h(f"{c['kind']}/d={c.get('d', 2)}/size={size}")
         if c["kind"] in ("fals_mps", "fals_fill", "fals_backend"):
             h(f"{c['kind']}/settings={'tight' if c.get('trunc') else 'default'}")
@@ -1089,6 +1314,7 @@ def run(ctx):
         except (common.CoqEvalError, ValueError) as ex:
             corr_ok, detail = False, str(ex)
     ctx.extra["tie"] = {"exact_comparisons": n_cmp}
+    ctx.extra["precision_stream"] = {"tolerance_rel": PREC, "worst_rel_error": prec_worst[0]}
     ctx.extra["input_distribution"] = dict(sorted(hist.items()))
     ctx.obligation("correspondence:Model.SvObs==emu_sv callbacks; Model.MpsPad==extended_mps_factors/"
                    "extended_mpo_factors/get_extended_site_index (exact on Gaussian integers)", corr_ok, detail,
@@ -1099,6 +1325,10 @@ def run(ctx):
                 "of length <= 6 (8) for the site index; falsifier: random complex unnormalised/normalised state "
                 "vectors (N 1-8), density matrices (N 1-5), non-canonical MPS (qubit 2-8, qutrit 2-5 atoms, random "
                 "bonds 1-4, orthogonality centre None or any site) with the real Hamiltonian objects, and "
+                "precision stream (generic complex128 state vectors 2-7, density matrices 2-5, MPS 2-6 atoms with truncation "
+                "off, every observable incl. fidelity and expectation, numpy complex128 reference at 1e-11 * scale, dtype "
+                "oracle; MPS moments re-evaluated on the same Hamiltonian object after update_H); MPSBackend runs with 2-4 "
+                "evaluation times under time-dependent drives; "
                 "fill_results (MPSBackendImpl and NoisyMPSBackendImpl) with dark-atom masks and internal states of norm 0.3-1.5 "
                 "(always: the sweep 2 dims x 6 mask kinds x 2 classes x 4 norms; a probe observable records the state "
                 "object handed to the callbacks); non-trivial = at least 2 atoms (padding: at least one dark atom); "
